@@ -4,11 +4,35 @@
        <return value> | <len field> <items reachable from head> <tail designates last item>  (lists)
    `new` / `sta` / `lnew` start a fresh object (the previous one is destroyed), so a sequence of
    lines starting with one of them is self-contained.  The private struct fields are reached by
-   including the source files (as the project's own test_wbxml_parser_internals.c does). */
+   including the source files (as the project's own test_wbxml_parser_internals.c does).
+   Allocation refusal (built with -DC19_VFMEM against the "-vfmem" library variant, whose
+   malloc/realloc/free/strdup are the vf_* functions below): a line may start with a token
+       F<k>   the k-th allocation request made by the library during THIS operation is refused
+       A<k>   the k-th and every later one are refused
+   Requests are counted only while the function under test runs (not while the harness builds the
+   second operand).  A creating function that returns NULL prints "null" and the previous object
+   is kept, so that "refused = no effect" is observable for those too. */
 #include "vh.h"
 #include "wbxml_buffers.c"
 #include "wbxml_lists.c"
 #include <stdint.h>
+
+static int vf_armed = 0, vf_mode = 0;      /* mode: 0 none, 'F', 'A' */
+static long vf_k = 0, vf_n = 0;
+#ifdef C19_VFMEM
+static int vf_refuse(void) {
+    if (!vf_armed || !vf_mode) return 0;
+    vf_n++;
+    return (vf_mode == 'F') ? (vf_n == vf_k) : (vf_n >= vf_k);
+}
+void *vf_malloc(size_t n) { return vf_refuse() ? NULL : malloc(n); }
+void *vf_realloc(void *p, size_t n) { return vf_refuse() ? NULL : realloc(p, n); }
+void vf_free(void *p) { free(p); }
+char *vf_strdup(const char *s) { size_t n = strlen(s) + 1; char *p = vf_malloc(n); if (p) memcpy(p, s, n); return p; }
+#endif
+/* run one library call with the refusal plan of this line armed */
+#define API(lhs, call) do { vf_n = 0; vf_armed = 1; lhs = (call); vf_armed = 0; } while (0)
+#define APIV(call) do { vf_n = 0; vf_armed = 1; (call); vf_armed = 0; } while (0)
 
 static WBXMLBuffer *B = NULL;
 static unsigned char *sta_data = NULL;     /* storage of a static buffer: exactly len octets */
@@ -24,6 +48,7 @@ static void drop_buffer(void) {
 static void dump_buffer(void) {
     if (!B) { printf(" | nobuf\n"); return; }
     printf(" | %u ", (unsigned) B->len);
+    if (B->data == NULL && B->len > 0) { printf("NODATA -- %d\n", B->is_static ? 1 : 0); return; }   /* len > 0 without storage */
     vh_puthex(stdout, B->data, B->len);
     if (!B->is_static && B->data != NULL) printf(" %02x", B->data[B->len]);
     else printf(" --");
@@ -60,28 +85,41 @@ static WBXMLBuffer *other_of(const char *hex, unsigned char **keep) {
 #define IS(s) (strcmp(tok[0], s) == 0)
 #define UL(i) ((WB_ULONG) strtoul(tok[i], NULL, 10))
 #define PB(r) printf((r) ? "T" : "F")
+#define PSOME(ok, v) do { if (ok) printf("some %u", (unsigned) (v)); else printf("none"); } while (0)
 
 int main(void) {
-    char *line, *tok[8];
+    char *line, *alltok[9], **tok;
     setvbuf(stdout, NULL, _IOLBF, 0);       /* an answer must not be lost when a later operation aborts */
     while ((line = vh_line(stdin)) != NULL) {
-        int nt = vh_split(line, tok, 8);
+        int nt = vh_split(line, alltok, 9), r = 0;
+        tok = alltok;
+        vf_mode = 0;
+        if ((tok[0][0] == 'F' || tok[0][0] == 'A') && tok[0][1] >= '0' && tok[0][1] <= '9' && nt >= 2) {
+#ifdef C19_VFMEM
+            vf_mode = tok[0][0];
+            vf_k = strtol(tok[0] + 1, NULL, 10);
+            tok++; nt--;
+#else
+            printf("bad (built without C19_VFMEM)\n"); continue;
+#endif
+        }
         /* ---- lists ---- */
         if (tok[0][0] == 'l' && !IS("len")) {
             if (IS("lnew")) {
-                if (L) wbxml_list_destroy(L, NULL);
-                L = wbxml_list_create();
-                printf("v");
+                WBXMLList *nl;
+                API(nl, wbxml_list_create());
+                if (nl) { if (L) wbxml_list_destroy(L, NULL); L = nl; printf("v"); }
+                else printf("null");
             }
             else if (!L) { printf("nolist\n"); continue; }
-            else if (IS("lapp") && nt == 2) PB(wbxml_list_append(L, (void *) (uintptr_t) UL(1)));
-            else if (IS("lins") && nt == 3) PB(wbxml_list_insert(L, (void *) (uintptr_t) UL(1), UL(2)));
+            else if (IS("lapp") && nt == 2) { API(r, wbxml_list_append(L, (void *) (uintptr_t) UL(1))); PB(r); }
+            else if (IS("lins") && nt == 3) { API(r, wbxml_list_insert(L, (void *) (uintptr_t) UL(1), UL(2))); PB(r); }
             else if (IS("lget") && nt == 2) {
-                void *p = wbxml_list_get(L, UL(1));
+                void *p; API(p, wbxml_list_get(L, UL(1)));
                 if (p) printf("some %lu", (unsigned long) (uintptr_t) p); else printf("none");
             }
             else if (IS("lext")) {
-                void *p = wbxml_list_extract_first(L);
+                void *p; API(p, wbxml_list_extract_first(L));
                 if (p) printf("some %lu", (unsigned long) (uintptr_t) p); else printf("none");
             }
             else if (IS("llen")) printf("len %u", (unsigned) wbxml_list_len(L));
@@ -92,74 +130,72 @@ int main(void) {
         /* ---- buffers ---- */
         if (IS("new") && nt == 3) {
             size_t n; unsigned char *d = vh_unhex(tok[1], &n);
-            drop_buffer();
-            B = wbxml_buffer_create(d, (WB_ULONG) n, UL(2));
+            WBXMLBuffer *nb;
+            API(nb, wbxml_buffer_create(d, (WB_ULONG) n, UL(2)));
             free(d);
-            printf("v");
+            if (nb) { drop_buffer(); B = nb; printf("v"); } else printf("null");
         }
         else if (IS("sta") && nt == 2) {
-            size_t n; unsigned char *d = vh_unhex(tok[1], &n);
-            drop_buffer();
-            sta_data = malloc(n ? n : 1);
-            memcpy(sta_data, d, n);
-            if (n == 0) { free(sta_data); sta_data = NULL; }   /* no octet may be touched at all */
+            size_t n; unsigned char *d = vh_unhex(tok[1], &n), *sd = NULL;
+            WBXMLBuffer *nb;
+            if (n) { sd = malloc(n); memcpy(sd, d, n); }    /* exactly n octets; none at all for n = 0 */
             free(d);
-            B = wbxml_buffer_sta_create(sta_data, (WB_ULONG) n);
-            printf("v");
+            API(nb, wbxml_buffer_sta_create(sd, (WB_ULONG) n));
+            if (nb) { drop_buffer(); B = nb; sta_data = sd; printf("v"); } else { free(sd); printf("null"); }
         }
         else if (!B) { printf("nobuf\n"); continue; }
         else if (IS("dup")) {
-            WBXMLBuffer *d = wbxml_buffer_duplicate(B);
-            drop_buffer();
-            B = d;
-            printf("v");
+            WBXMLBuffer *d;
+            API(d, wbxml_buffer_duplicate(B));
+            if (d) { drop_buffer(); B = d; printf("v"); } else printf("null");
         }
         else if (IS("len")) printf("len %u", (unsigned) wbxml_buffer_len(B));
         else if (IS("get") && nt == 2) {
             WB_UTINY ch = 0xEE;
-            if (wbxml_buffer_get_char(B, UL(1), &ch)) printf("some %u", (unsigned) ch); else printf("none");
+            API(r, wbxml_buffer_get_char(B, UL(1), &ch)); PSOME(r, ch);
         }
-        else if (IS("set") && nt == 3) PB(wbxml_buffer_set_char(B, UL(1), (WB_UTINY) UL(2)));
+        else if (IS("set") && nt == 3) { API(r, wbxml_buffer_set_char(B, UL(1), (WB_UTINY) UL(2))); PB(r); }
         else if ((IS("ins") || IS("app") || IS("cmp") || IS("srch")) && nt >= 2) {
             unsigned char *keep; WBXMLBuffer *o = other_of(tok[1], &keep);
-            if (IS("ins")) PB(wbxml_buffer_insert(B, o, UL(2)));
-            else if (IS("app")) PB(wbxml_buffer_append(B, o));
-            else if (IS("cmp")) { WB_LONG r = wbxml_buffer_compare(B, o); printf("cmp %d", r < 0 ? -1 : r > 0 ? 1 : 0); }
+            if (IS("ins")) { API(r, wbxml_buffer_insert(B, o, UL(2))); PB(r); }
+            else if (IS("app")) { API(r, wbxml_buffer_append(B, o)); PB(r); }
+            else if (IS("cmp")) { WB_LONG c; API(c, wbxml_buffer_compare(B, o)); printf("cmp %d", c < 0 ? -1 : c > 0 ? 1 : 0); }
             else {
                 WB_ULONG res = 0xDEAD;
-                if (wbxml_buffer_search(B, o, UL(2), &res)) printf("some %u", (unsigned) res); else printf("none");
+                API(r, wbxml_buffer_search(B, o, UL(2), &res)); PSOME(r, res);
             }
             wbxml_buffer_destroy(o);
             free(keep);
         }
         else if ((IS("insc") || IS("appc") || IS("cmpc") || IS("srchc")) && nt >= 2) {
             unsigned char *s = cstr_of(tok[1]);
-            if (IS("insc")) PB(wbxml_buffer_insert_cstr(B, s, UL(2)));
-            else if (IS("appc")) PB(wbxml_buffer_append_cstr(B, s));
-            else if (IS("cmpc")) { WB_LONG r = wbxml_buffer_compare_cstr(B, (const WB_TINY *) s); printf("cmp %d", r < 0 ? -1 : r > 0 ? 1 : 0); }
+            if (IS("insc")) { API(r, wbxml_buffer_insert_cstr(B, s, UL(2))); PB(r); }
+            else if (IS("appc")) { API(r, wbxml_buffer_append_cstr(B, s)); PB(r); }
+            else if (IS("cmpc")) { WB_LONG c; API(c, wbxml_buffer_compare_cstr(B, (const WB_TINY *) s)); printf("cmp %d", c < 0 ? -1 : c > 0 ? 1 : 0); }
             else {
                 WB_ULONG res = 0xDEAD;
-                if (wbxml_buffer_search_cstr(B, s, UL(2), &res)) printf("some %u", (unsigned) res); else printf("none");
+                API(r, wbxml_buffer_search_cstr(B, s, UL(2), &res)); PSOME(r, res);
             }
             free(s);
         }
         else if (IS("appd") && nt == 2) {
             size_t n; unsigned char *d = vh_unhex(tok[1], &n);
-            PB(wbxml_buffer_append_data(B, d, (WB_ULONG) n));
+            API(r, wbxml_buffer_append_data(B, d, (WB_ULONG) n)); PB(r);
             free(d);
         }
-        else if (IS("appch") && nt == 2) PB(wbxml_buffer_append_char(B, (WB_UTINY) UL(1)));
-        else if (IS("appmb") && nt == 2) PB(wbxml_buffer_append_mb_uint_32(B, UL(1)));
-        else if (IS("del") && nt == 3) PB(wbxml_buffer_delete(B, UL(1), UL(2)));
-        else if (IS("shrink")) PB(wbxml_buffer_shrink_blanks(B));
-        else if (IS("strip")) PB(wbxml_buffer_strip_blanks(B));
-        else if (IS("nosp")) { wbxml_buffer_no_spaces(B); printf("v"); }
+        else if (IS("appch") && nt == 2) { API(r, wbxml_buffer_append_char(B, (WB_UTINY) UL(1))); PB(r); }
+        else if (IS("appmb") && nt == 2) { API(r, wbxml_buffer_append_mb_uint_32(B, UL(1))); PB(r); }
+        else if (IS("del") && nt == 3) { API(r, wbxml_buffer_delete(B, UL(1), UL(2))); PB(r); }
+        else if (IS("shrink")) { API(r, wbxml_buffer_shrink_blanks(B)); PB(r); }
+        else if (IS("strip")) { API(r, wbxml_buffer_strip_blanks(B)); PB(r); }
+        else if (IS("nosp")) { APIV(wbxml_buffer_no_spaces(B)); printf("v"); }
         else if (IS("words")) {
-            WBXMLList *ws = wbxml_buffer_split_words(B);
+            WBXMLList *ws;
             WB_ULONG i;
-            printf("words ");
-            if (ws == NULL) printf("NULL");
+            API(ws, wbxml_buffer_split_words(B));
+            if (ws == NULL) printf("null");
             else {
+                printf("words ");
                 if (wbxml_list_len(ws) == 0) printf("none");
                 for (i = 0; i < wbxml_list_len(ws); i++) {
                     WBXMLBuffer *w = (WBXMLBuffer *) wbxml_list_get(ws, i);
@@ -173,14 +209,14 @@ int main(void) {
         }
         else if (IS("schr") && nt == 3) {
             WB_ULONG res = 0xDEAD;
-            if (wbxml_buffer_search_char(B, (WB_UTINY) UL(1), UL(2), &res)) printf("some %u", (unsigned) res); else printf("none");
+            API(r, wbxml_buffer_search_char(B, (WB_UTINY) UL(1), UL(2), &res)); PSOME(r, res);
         }
-        else if (IS("onlyws")) PB(wbxml_buffer_contains_only_whitespaces(B));
-        else if (IS("h2b")) PB(wbxml_buffer_hex_to_binary(B));
-        else if (IS("b2h") && nt == 2) PB(wbxml_buffer_binary_to_hex(B, tok[1][0] == 'U'));
-        else if (IS("b64d")) PB(wbxml_buffer_decode_base64(B) == WBXML_OK);
-        else if (IS("b64e")) PB(wbxml_buffer_encode_base64(B) == WBXML_OK);
-        else if (IS("rtz")) PB(wbxml_buffer_remove_trailing_zeros(B));
+        else if (IS("onlyws")) { API(r, wbxml_buffer_contains_only_whitespaces(B)); PB(r); }
+        else if (IS("h2b")) { API(r, wbxml_buffer_hex_to_binary(B)); PB(r); }
+        else if (IS("b2h") && nt == 2) { API(r, wbxml_buffer_binary_to_hex(B, tok[1][0] == 'U')); PB(r); }
+        else if (IS("b64d")) { API(r, wbxml_buffer_decode_base64(B) == WBXML_OK); PB(r); }
+        else if (IS("b64e")) { API(r, wbxml_buffer_encode_base64(B) == WBXML_OK); PB(r); }
+        else if (IS("rtz")) { API(r, wbxml_buffer_remove_trailing_zeros(B)); PB(r); }
         else { printf("bad\n"); continue; }
         dump_buffer();
     }
